@@ -35,7 +35,7 @@ package parentpb
 //@     invariant result.Children == pre(result.Children) && result.TotalSize == pre(result.TotalSize) && result.NextPageToken == pre(result.NextPageToken)
 //@     invariant forall j int :: k <= j && j < upperBound - nextIndex ==> result.Children[j] != nil
 //@
-//@ property C20
+//@ property C20 C07
 //@ // ---- a child's trait list is a strictly sorted (hence duplicate-free) list of names; AddChildTrait/RemoveChildTrait
 //@ // compute set union / set difference on it ----
 //@ pure func traitsOK(ts) = forall i int :: 0 <= i && i < len(ts) ==> ts[i] != nil
